@@ -129,6 +129,7 @@ Proof.
   - (* list *)
     pose proof (subst_valid_type _ _ TList EV eq_refl). destruct v as [| | | | | | | | |l| | | |]; try discriminate.
     destruct (negb (length l =? 0) && forallb is_vell l); [exact I|].
+    destruct (existsb is_vell (removelast (tl l))); [exact I|].
     cbn [wf] in Hwf. apply andb_true_iff in Hwf as [Hwes Hwty].
     destruct ty as [t|].
     + assert (Hc : clean (rsequence (map (fun x => if is_vell x then Ok None
